@@ -4,6 +4,7 @@ import (
 	"errors"
 	"fmt"
 	"io"
+	"os"
 	"testing"
 
 	lz4 "github.com/pierrec/lz4/v4"
@@ -47,8 +48,24 @@ func failErr(kind int) error {
 		return inst.ErrInjectedWrapsUnexpectedEOF
 	case 3:
 		return io.ErrUnexpectedEOF // the sentinel itself: what a truncated gzip / http body / lz4 stream returns
+	case 6:
+		return io.ErrClosedPipe // other sentinels of the io package that real sources return (a closed io.Pipe, a stuck reader ...)
+	case 7:
+		return io.ErrNoProgress
+	case 8:
+		return io.ErrShortBuffer
+	case 9:
+		return os.ErrClosed
 	}
 	return nil // 0, 4: the plain injected error
+}
+
+// failWant: the error a failure of this kind must surface as (errors.Is).
+func failWant(kind int) error {
+	if e := failErr(kind); e != nil && kind != 1 && kind != 2 && kind != 5 {
+		return e
+	}
+	return inst.ErrInjected
 }
 
 // failWithData: kinds 4 and 5 return the error together with the data of the failing call.
@@ -170,10 +187,7 @@ func runC18(c c18Case, rec *stat.Rec) *stat.Failure {
 	}
 	desc := fmt.Sprintf("%s, %d bytes in, head %v sizes %v, source chunks %v", c.Opts, len(data), c.Head, c.Sizes, c.Src)
 	if c.FailAt > 0 && src.Failed > 0 {
-		want := error(inst.ErrInjected)
-		if c.FailKind == 3 {
-			want = io.ErrUnexpectedEOF
-		}
+		want := failWant(c.FailKind)
 		if !errors.Is(final, want) {
 			return stat.Failf("C18/source-error-not-passed-through/"+errClass(final)+fmt.Sprintf("/failkind=%d", c.FailKind), "%s: source failed at call %d (kind %d: %v, with data: %v), Read returned %v", desc, c.FailAt, c.FailKind, want, failWithData(c.FailKind), final)
 		}
@@ -294,7 +308,7 @@ func drawC18(t *rapid.T) c18Case {
 	}
 	if rapid.IntRange(0, 7).Draw(t, "fail?") == 0 {
 		c.FailAt = rapid.IntRange(1, 12).Draw(t, "failat")
-		c.FailKind = rapid.IntRange(0, 5).Draw(t, "failkind")
+		c.FailKind = rapid.IntRange(0, 9).Draw(t, "failkind")
 	}
 	if rapid.IntRange(0, 4).Draw(t, "prev?") == 0 {
 		p := &c18Prev{Data: drawFrameData(t, rapid.SampledFrom([]int{0, 10, 70000, 200000}).Draw(t, "prevn")),
